@@ -511,19 +511,16 @@ pub fn run_fixture(sc: &FixSc, keep: bool) -> Report {
         }
     });
     let evs = std::mem::take(&mut shared.borrow_mut().evs);
-    let mut v = None;
-    let mut nontrivial = false;
-    match r {
-        Err(msg) => v = Some(Violation::new("Panic", format!("fixture run panicked: {msg}"))),
+    let (v, nontrivial) = match r {
+        Err(msg) => (Some(Violation::new("Panic", format!("fixture run panicked: {msg}"))), false),
         Ok(()) => {
-            let (vv, nt) = judge(sc, &evs, &mut log, &mut rep);
-            v = vv;
-            nontrivial = nt;
+            let (mut v, nt) = judge(sc, &evs, &mut log, &mut rep);
             if sc.lo && evs.iter().any(|e| matches!(e, FEv::Invoke { .. })) && v.is_none() {
                 v = Some(Violation::new("LoopbackShownToRules", "a rule was invoked in a loopback-only fixture".to_string()));
             }
+            (v, nt)
         }
-    }
+    };
     if let Some(v) = &v {
         log.ev(format!("VIOLATION {}: {}", v.class, v.message));
     }
